@@ -125,6 +125,7 @@ type Run struct {
 	sequentialised bool
 	lazyGo        bool        // go statements are queued and run when the spawner blocks (zzverif.LazyGo)
 	goQueue       []pendingGo
+	cshadow       map[*ChanObj]*ChanObj
 
 	mutex    map[string]int // ghost lock state keyed by object path
 	hashes   map[*Obj]*hashGhost
@@ -1014,6 +1015,16 @@ func (h *HarnessRun) runPath(sv *Solver, prefix []Decision) {
 				switch x := e.(type) {
 				case *pathEnd:
 					outcome, msg = x.kind, x.msg
+					if outcome == "deadlock" || outcome == "unsupported" || outcome == "unwind" || outcome == "concretize-cap" {
+						// a branch kept because its feasibility query came back unknown (a loaded machine) may be infeasible:
+						// before such a path makes the run inconclusive, its path condition is decided once more
+						func() {
+							defer func() { recover() }()
+							if _, res := r.model(nil, nil); res == "unsat" {
+								outcome, msg = "infeasible", x.kind+" on an infeasible path: "+x.msg
+							}
+						}()
+					}
 				case *goPanicT:
 					outcome, msg = "panic", x.msg+" at "+x.pos
 					// a panic escaping the harness is a violation of the implicit no-crash assertion
